@@ -1079,6 +1079,8 @@ class BaseScreen(metaclass=BaseMeta):
             name, like_name = item
             if like_name not in self._palette:
                 raise ScreenError(f"palette entry '{like_name}' doesn't exist")
+            # announce the copy like any other entry, so that the display learns about it
+            signals.emit_signal(self, UPDATE_PALETTE_ENTRY, name, *self._palette[like_name])
             self._palette[name] = self._palette[like_name]
 
     def register_palette_entry(
